@@ -63,7 +63,7 @@ pub async fn do_cloud_auth(
         return Ok(());
     }
 
-    let mut ts = topics.lock().await;
+    let ts = topics.lock().await;
 
     let proxy_namespace = TopicName::_create_unchecked("selium", "proxy");
 
@@ -72,7 +72,12 @@ pub async fn do_cloud_auth(
     if ts.contains_key(&proxy_namespace) {
         let ((si, st), (mut tx, rx)) = channel_pair();
 
-        let topic_tx = ts.get_mut(&proxy_namespace).unwrap();
+        let mut topic_tx = ts.get(&proxy_namespace).unwrap().clone();
+
+        // Talking to the proxy can take seconds; do not keep every other
+        // registration waiting on the global lock meanwhile.
+        drop(ts);
+
         topic_tx
             .send(Socket::Reqrep(reqrep::Socket::Client((
                 Box::pin(si.sink_map_err(|_| SeliumError::RequestFailed)),
